@@ -17,6 +17,7 @@ func init() {
 			"(C07-g) every negative answer of includePairWithRepresentativePeer is given on a path that entails one of the three documented cases (both ends representative; a representative with an IP block; a representative with the ingress controller) - an entailment on path conditions, not a reading of the if-statements. " +
 			"(C07-exists) a function that walks a list of rule peers gives no negative answer inside the loop: a non-selecting entry is skipped, `false` comes only after the list is exhausted (anchored by the type ranged over). " +
 			"(C07-fold) the loop that folds the selecting policies' cluster-wide exposure into the pod visits every policy (no early exit on a saturated connection set); (C07-b-nil) a rule without namespaceSelector matches a representative peer by the peer's namespace selector, as the de-duplication key does (defect F21, repaired). " +
+			"(C07-acc-return) a function that takes a slice and hands back one built from it (an accumulator step, e.g. the per-rule step of the exposure pre-scan if it is written in append style) hands back a value built from its parameter on every exit that can be a success. " +
 			"NOT decided: SelectorsFullMatch semantics in general; coverage for arbitrary hypothetical pods."
 		rules.RulePeerClassification(p, r, "C07-a")
 		rules.RepresentativeKey(p, r, "C07-b")
@@ -29,5 +30,6 @@ func init() {
 		rules.RepresentativePairExclusionTable(p, r, "C07-g")
 		rules.ExposureFlagNonInterference(p, r, "C07-fold")
 		rules.NilNamespaceSelectorMatchesByKey(p, r, "C07-b-nil")
+		rules.AccumulatorsHandedBack(p, r, "C07-acc-return")
 	})
 }
